@@ -80,23 +80,56 @@ func c42(c *Ctx) {
 		send := one(c, "send in sendExisting", callsIn(f, sendCM))
 		reset := one(c, "nonce reset", storesToField(f, fNonce))
 		c.ValueIs(reset, reset.Val, "nonce-reset-to-empty", ConstStr(""))
-		c.Dominates(reset, send, "reset-before-send")
+		// the loops over the per-type states; the reset and the send each belong to the nearest one that dominates them.
+		// Either they share a loop (the reset precedes the send in every iteration) or the reset has a loop of its own
+		// that runs to completion before the sending loop starts.
+		var nxs []ssa.Instruction
+		for _, in := range instrsWhere(f, func(in ssa.Instruction) bool { _, ok := in.(*ssa.Next); return ok }) {
+			if rg, ok := in.(*ssa.Next).Iter.(*ssa.Range); ok && FieldLoad(c.field(xdsc, "adsStreamImpl", "resourceTypeState"))(rg.X) {
+				nxs = append(nxs, in)
+			}
+		}
+		nearest := func(at ssa.Instruction) ssa.Instruction {
+			var best ssa.Instruction
+			for _, n := range nxs {
+				if instrDominates(n, at) && (best == nil || instrDominates(best, n)) {
+					best = n
+				}
+			}
+			return best
+		}
+		nx, nxS := nearest(reset), nearest(send)
+		if nx == nil || nxS == nil {
+			panic(missingStep{"the nonce reset or the send is not inside a range over resourceTypeState"})
+		}
+		split := nx != nxS
+		exitEdgeOf := func(n ssa.Instruction) func(from, to *ssa.BasicBlock) bool {
+			me := func(v ssa.Value) bool { return v == n.(ssa.Value) }
+			return func(from, to *ssa.BasicBlock) bool {
+				_, ok := hasFact(edgeFacts(from, to), Truth(ExtractOf(me, 0), false))
+				return ok
+			}
+		}
+		if !split {
+			c.Dominates(reset, send, "reset-before-send")
+		} else {
+			c.Expect(instrDominates(nx, nxS), send, f, "reset-before-send", "the loop that resets the nonces does not precede the loop that sends")
+			// the resetting loop is left only when exhausted: the sending loop cannot be reached from inside it
+			// other than through its 'no more entries' edge
+			c.MustPass("reset-before-send", pathQuery{Fn: f, Starts: []ssa.Instruction{nx}, Barrier: func(in ssa.Instruction) bool { return false },
+				Target: func(in ssa.Instruction) bool { return in == nxS }, EdgeBlock: exitEdgeOf(nx)}, nx)
+		}
 		// the reset is not conditional on the type having subscriptions: every iteration over the
 		// per-type states passes through it (a type subscribed later on this stream must not reuse the old stream's nonce)
-		nx := one(c, "range over resourceTypeState", instrsWhere(f, func(in ssa.Instruction) bool { _, ok := in.(*ssa.Next); return ok }))
-		self := func(v ssa.Value) bool { return v == nx.(ssa.Value) }
 		q0 := pathQuery{Fn: f, Starts: []ssa.Instruction{nx}, Barrier: func(in ssa.Instruction) bool { return in == ssa.Instruction(reset) },
-			Target: func(in ssa.Instruction) bool { return in == nx || isReturn(in) },
-			EdgeBlock: func(from, to *ssa.BasicBlock) bool {
-				_, ok := hasFact(edgeFacts(from, to), Truth(ExtractOf(self, 0), false))
-				return ok
-			}}
+			Target:    func(in ssa.Instruction) bool { return in == nx || isReturn(in) || in == nxS && split },
+			EdgeBlock: exitEdgeOf(nx)}
 		c.MustPass("every-type-nonce-reset", q0, nx)
 		c.ArgIs(send, 4, "resend-with-stored-version", FieldLoad(fVer))
 		c.ArgIs(send, 5, "resend-with-reset-nonce", FieldLoad(fNonce))
 		c.ArgIs(send, 2, "resend-with-subscribed-names", CallWith(Callee(xdsc, "resourceNames"), 0, FieldLoad(fSubs)))
 		if ld, ok := strip(send.Common().Args[5]).(ssa.Instruction); ok {
-			c.Expect(instrDominates(reset, ld), ld, f, "nonce-read-after-reset", "the nonce sent on the new stream is read before the reset")
+			c.Expect(instrDominates(reset, ld) || split && instrDominates(nxS, ld), ld, f, "nonce-read-after-reset", "the nonce sent on the new stream is read before the reset")
 		}
 		// same state object for version, nonce, names
 		c.MustFact(send, "only-types-with-subscriptions", func(fct Fact) bool {
@@ -114,7 +147,7 @@ func c42(c *Ctx) {
 		}
 		c.Expect(n >= 3, nil, nil, "error-sites", "fewer tested send/receive errors than on the reviewed tree")
 		se := c.fn(xdsc, "adsStreamImpl.sendExisting")
-		c.Expect(c.NoEarlyExit(se, FieldLoad(c.field(xdsc, "adsStreamImpl", "resourceTypeState")), "sendExisting:every-type-visited") == 1, nil, se, "sendExisting:scan", "no scan over the per-type states")
+		c.Expect(c.NoEarlyExit(se, FieldLoad(c.field(xdsc, "adsStreamImpl", "resourceTypeState")), "sendExisting:every-type-visited") >= 1, nil, se, "sendExisting:scan", "no scan over the per-type states")
 		for _, fn := range []string{"adsStreamImpl.sendNewLocked", "adsStreamImpl.sendExisting"} {
 			f := c.fn(xdsc, fn)
 			send := one(c, "send in "+fn, callsIn(f, sendCM))
